@@ -542,7 +542,7 @@ func (k *worker) evalVariant(v Variant, times []time.Time) *truth {
 	}
 	k.calls++
 
-	pre := k.sp.name() + "/" + v.key() + "/"
+	pre := k.sp.keyPrefix() + "/" + v.class() + "/"
 	if err != nil {
 		if ok, why := t.classifyError(err); !ok {
 			k.violation(v, "error-type/"+pre+errClass(err), why)
